@@ -170,15 +170,38 @@ def main(tier: str) -> int:
                           % (drawfn, q8(cur), len(cur), round(rate * 16), round(fmin * 16), round(fmax * 16)))
         else:
             jlines.append("#eval IO.println (showQ (jDE_get_mutate_CR %s %s %d ((%d : Rat) / 16)))" % (drawfn, q8(cur), len(cur), round(rate * 16)))
+    # ... and the two update rules that divide by the total improvement (finite, dyadic inputs)
+    ucases = []
+    for _ in range(24 if tier == "quick" else 200):
+        n_ = rng.randint(0, 4)
+        ucases.append((rng.choice(["CR", "U"]), rng.randint(1, 15) / 16, [rng.randint(0, 16) / 16 for _ in range(n_)], [rng.choice([0, 0, 1, 2, 4, 8]) / 4 for _ in range(n_)]))
+    jlines[0:0] = ["import TFV.Generated.Src.SHADE_update_u_CR", "import TFV.Generated.Src.SHAGA_update_u", "import TFV.Model.Adapt"]
+    jlines.append("def showS : Option Rat → String | none => \"none\" | some q => toString q.num ++ \"/\" ++ toString q.den")
+    for which, u_, S_, df_ in ucases:
+        if which == "CR":
+            jlines.append("#eval IO.println (showS (SHADE_update_u_CR ((%d : Rat) / 16) %s %s))" % (round(u_ * 16), q8(S_), q8(df_)))
+        else:
+            jlines.append("#eval IO.println (showS (SHAGA_update_u (fun x w => TFV.Adapt.lehmer x w) ((%d : Rat) / 16) %s %s))" % (round(u_ * 16), q8(S_), q8(df_)))
     jaudit = C.LEAN / "TFV" / "Audit" / "C15_np.lean"
     jaudit.parent.mkdir(parents=True, exist_ok=True)
     jaudit.write_text("\n".join(jlines) + "\n")
     with C.LeanLock():
         jpr = subprocess.run(["lake", "env", "lean", str(jaudit.relative_to(C.LEAN))], cwd=C.LEAN, capture_output=True, text=True, timeout=900)
     jgot = [l.strip() for l in jpr.stdout.splitlines() if l.strip()]
-    chk.obligation("the translated jDE regeneration functions evaluate (lake env lean TFV/Audit/C15_np.lean)", jpr.returncode == 0 and len(jgot) == len(jcases), (jpr.stdout + jpr.stderr)[-600:])
-    if jpr.returncode == 0 and len(jgot) == len(jcases):
+    chk.obligation("the translated jDE regeneration functions evaluate (lake env lean TFV/Audit/C15_np.lean)", jpr.returncode == 0 and len(jgot) == len(jcases) + len(ucases), (jpr.stdout + jpr.stderr)[-600:])
+    if jpr.returncode == 0 and len(jgot) == len(jcases) + len(ucases):
         import re as _re
+        from thefittest.optimizers import SHADE as _SHADE
+        sh_ = _SHADE(fitness_function=lambda x: np.sum(x, axis=1), iters=2, pop_size=4, left_border=-1.0, right_border=1.0, num_variables=2)
+        sg_ = _SHAGA(fitness_function=lambda x: np.sum(x, axis=1, dtype=np.float64), iters=2, pop_size=4, str_len=8)
+        for (which, u_, S_, df_), g in zip(ucases, jgot[len(jcases):]):
+            with np.errstate(all="ignore"):
+                real = float(sh_._update_u_CR(u_, np.array(S_, dtype=np.float64), np.array(df_, dtype=np.float64)) if which == "CR" else
+                             sg_._update_u(u_, np.array(S_, dtype=np.float64), np.array(df_, dtype=np.float64)))
+            val = None if g == "none" else int(g.split("/")[0]) / int(g.split("/")[1])
+            chk.count("np_kernel_update_" + which)
+            (chk.agree("np_kernel:update_" + which) if val is not None and C.close(real, val, 1e-9, 1e-12) else
+             chk.disagree("np_kernel:update_" + which, {"input": {"u": u_, "S": S_, "df": df_}, "impl": real, "model": g}))
         saved_uniform = JM.uniform
         try:
             for (which, cur, rate, d0, d1, fmin, fmax), g in zip(jcases, jgot):
